@@ -22,7 +22,7 @@ EXPLANATION = (
     "zone echo)."
 )
 ASSUMPTIONS = ["the two generations are meant to be line-for-line siblings outside the documented differences (true of the pinned tree)"]
-FLOORS = {"C19.R1": 60, "C19.R2": 10, "C19.R3": 40, "C19.R5": 1}
+FLOORS = {"C19.R1": 60, "C19.R2": 10, "C19.R3": 40, "C19.R5": 1, "C19.R4": 12}
 
 PAIRS = [("Zone", "At4Zone", "At5Zone"), ("AirConditioner", "At4AirConditioner", "At5AirConditioner"), ("AirTouch", "AirTouch4", "AirTouch5")]
 
